@@ -47,9 +47,13 @@ def generate(rng, tier, shard, nshards):
                 region = gen.compound_spec(rng, rng.randint(1, 2), leaf)
             else:
                 region = gen.pixel_region_spec(rng, size_range=(1e-2, 1e4),
-                                               meta_extra={'label': 'x', 'tag': ['a', 'b']} if rng.random() < 0.3 else None)
+                                               meta_extra=({'label': 'x', 'tag': ['a', 'b']} if rng.random() < 0.4 else
+                                                           {k: v for k, v in gen.rich_meta(rng, include='absent', nmax=6).items()}) if rng.random() < 0.6 else None)
                 if rng.random() < 0.3:
                     region['visual'] = {'color': 'red', 'linewidth': 2}
+                if rng.random() < 0.12:
+                    # DS9's "this region may not be rotated / moved in the GUI" flags are metadata, not geometry
+                    region['meta'] = dict(region.get('meta') or {}, rotate=0, move=0, fixed=1)
             yield {'lane': 'rotate:' + region['cls'], 'region': region, 'pivot': rng.choice(['centre', 'origin', 'far', 'random']),
                    'angle': gen.angle_spec(rng),
                    'q': {'kind': rng.choice(['bbox', 'boundary', 'mixed']), 'form': '1d', 'shape': None, 'dtype': 'float64',
